@@ -69,6 +69,11 @@ func (s *PSlice) Add(addrs ...boson.Address) {
 		}
 
 		po := addrPo[i]
+		// the same address may occur more than once in one call: the test above
+		// ran before anything was added, so look again
+		if e, _ := s.index(addr, po); e {
+			continue
+		}
 		s.peers[po] = append(s.peers[po], addr)
 	}
 }
